@@ -299,8 +299,8 @@ def oracle(op, kinds, inputs):
 
 # ---------------------------------------------------------------- concrete evaluation of a summary
 def const_of(kind, bits_value):
-    if kind == "Nil":
-        return z3.BitVecVal(0, 8)
+    if kind in ("Nil", "Str"):
+        return z3.BitVecVal(0, 8)        # no numeric payload: the input slot is a dummy
     ty = KTY[base_kind(kind)]
     if ty == "f64":
         return z3.fpBVToFP(z3.BitVecVal(bits_value, 64), F64)
@@ -380,6 +380,7 @@ BOUNDARY = {
 # ---------------------------------------------------------------- optional operands (C12)
 OPT_KINDS = ["Nil", "SomeInt", "SomeBigInt", "SomeFloat", "SomeByte", "SomeBool"]
 BOUNDARY["Nil"] = [0]
+BOUNDARY["Str"] = [0x31]
 for _k in ("Int", "BigInt", "Float", "Byte", "Bool"):
     BOUNDARY["Some" + _k] = BOUNDARY[_k]
 
